@@ -126,4 +126,57 @@ theorem value_in_include_is_site (env f : GoMap) (s : Str) :
 example : loadValues [] [.incl [(['A'], ['w'])] [.value ['$', 'A']], .value ['$', 'A']] = [.ok ['w'], .ok []] := by
   decide
 
+/-! ### Composition with the call-site refinement, prefix property, no panic -/
+
+/-- include entries nested inside each other, outermost first, around the documents `ds` -/
+def nest : List GoMap → List Doc → List Doc
+  | [], ds => ds
+  | f :: fs, ds => [.incl f (nest fs ds)]
+
+theorem specDocs_nest (env : GoMap) (files : List GoMap) (ds : List Doc) :
+    specDocs env (nest files ds) = specDocs (includeChain env files) ds := by
+  induction files generalizing env with
+  | nil => rfl
+  | cons f fs ih => simp [nest, specDocs, specDoc, includeChain, ih]
+
+/-- **the walk composed with the call-site refinement**: a `WF` template in a document that sits inside include
+    entries nested to any depth (env files `files`, outermost first) and *after* any other documents `before` of the
+    innermost entry (which may apply further include entries with env files of their own) means what the grammar says in
+    the layered environment of the enclosing entries — the first layer that sets a variable wins, and nothing that
+    `before` set is visible -/
+theorem nested_value_after_includes_render (env : GoMap) (files : List GoMap) (before : List Doc) (t : List Seg)
+    (h : WF t = true) :
+    loadValues env (nest files (before ++ [.value (renderL t)]))
+      = specDocs (includeChain env files) before ++ [evalOut (layered (env :: files)) t] := by
+  rw [load_is_stateless, specDocs_nest, specDocs_append]
+  simp [specDocs, specDoc, subst_render _ _ h, include_lookup_is_layered]
+
+/-- the outputs of `before` do not depend on what follows them either (prefix property of the walk) -/
+theorem load_prefix (env : GoMap) (a b : List Doc) :
+    loadValues env (a ++ b) = loadValues env a ++ loadValues env b := by
+  rw [load_is_stateless, load_is_stateless, load_is_stateless, specDocs_append]
+
+mutual
+theorem specDoc_no_panic : (d : Doc) → (env : GoMap) → (p : PanicSite) → Out.panic p ∉ specDoc env d
+  | .value s, env, p => by
+    simp only [specDoc, List.mem_singleton]
+    exact fun h => subst_never_panics _ s p h.symm
+  | .incl f ds, env, p => by simpa [specDoc] using specDocs_no_panic ds (includeEnv env f) p
+  | .ext ds, env, p => by simpa [specDoc] using specDocs_no_panic ds env p
+theorem specDocs_no_panic : (ds : List Doc) → (env : GoMap) → (p : PanicSite) → Out.panic p ∉ specDocs env ds
+  | [], _, _ => by simp [specDocs]
+  | d :: ds, env, p => by
+    simp only [specDocs, List.mem_append, not_or]
+    exact ⟨specDoc_no_panic d env p, specDocs_no_panic ds env p⟩
+end
+
+/-- no value of any document of a load is a panic of `Substitute`, whatever the tree, the env files and the strings -/
+theorem load_never_panics (env : GoMap) (ds : List Doc) (p : PanicSite) : Out.panic p ∉ loadValues env ds := by
+  rw [load_is_stateless]; exact specDocs_no_panic ds env p
+
+/-- non-vacuity of `nested_value_after_includes_render`: two nested entries, an inner include applied before the value -/
+example : loadValues [(['B'], ['b'])] (nest [[(['A'], ['1'])], [(['A'], ['2']), (['C'], ['c'])]]
+      ([.incl [(['D'], ['d'])] []] ++ [.value (renderL [.var ['A'] true, .var ['C'] false, .op ['D'] .dash [.var ['B'] true]])]))
+    = [.ok ['1', 'c', 'b']] := by decide
+
 end CV.Template.Docs
